@@ -25,6 +25,7 @@ variables.
 
 from collections.abc import MutableMapping
 from contextlib import ExitStack, contextmanager
+from functools import partial
 from struct import pack, unpack, unpack_from
 
 from .ebpf import (
@@ -105,8 +106,13 @@ class HashGlobalVarDesc:
                         pack("q" if self.fmt.islower() else "Q", value))
             return
         value = ensure_expression(ebpf, value)
+        get_address = value.get_address
+        if getattr(value, "fmt", "Q") not in ("Q", "q", "x"):
+            # the helper reads all 8 bytes of the value, a narrower
+            # variable is first widened on the stack
+            get_address = partial(Expression.get_address, value)
         with ebpf.save_registers([3]):
-            with value.get_address(3, True, True):
+            with get_address(3, True, True):
                 ebpf.owners.add(3)  # a helper call in between gives it up
                 with ebpf.save_registers([0, 1, 2, 4, 5]), \
                         ebpf.get_stack(4) as stack:
